@@ -6,6 +6,7 @@ import (
 	"encoding/json"
 	"fmt"
 	"strings"
+	"sync"
 	"time"
 
 	"github.com/DrmagicE/gmqtt"
@@ -34,12 +35,15 @@ type Case struct {
 }
 
 type ctx struct {
-	b    *broker.Broker
-	c    Case
-	id   string
-	fs   []finding
-	obs  map[string]int
-	adv  struct{ T, R uint16; P uint32 } // advertised in CONNACK
+	b   *broker.Broker
+	c   Case
+	id  string
+	fs  []finding
+	obs map[string]int
+	adv struct {
+		T, R uint16
+		P    uint32
+	} // advertised in CONNACK
 }
 
 type finding struct{ Sig, What string }
@@ -368,7 +372,9 @@ func (x *ctx) inSize() error {
 			x.add(fmt.Sprintf("inbound.size_rejected:exact=%v:code=0x%02x", sz == int(P), code&0xff), fmt.Sprintf("packet of %d bytes (Maximum Packet Size %d) cost the connection: %v code %d", sz, P, err, code))
 			return nil
 		}
-		if _, err := obs.WaitPublish(0, func(q *mqttx.Packet) bool { return strings.HasPrefix(string(q.Payload), tag) && len(q.Payload) == len(p.Payload) }, step); err != nil {
+		if _, err := obs.WaitPublish(0, func(q *mqttx.Packet) bool {
+			return strings.HasPrefix(string(q.Payload), tag) && len(q.Payload) == len(p.Payload)
+		}, step); err != nil {
 			x.add("inbound.size_not_forwarded", fmt.Sprintf("packet of %d bytes acknowledged but not forwarded", sz))
 		}
 		x.obs["inbound_size_accepted"]++
@@ -641,7 +647,55 @@ func allCases(r *monitor.Run) []Case {
 }
 
 // Run is the entry point.
+// serialAtTheLimit: with server_receive_maximum = 1 a publisher that never has more than one QoS>0 publication
+// outstanding (it waits for PUBACK / PUBCOMP before the next PUBLISH) stays within the limit and is never
+// disconnected for it, however quickly the next PUBLISH follows the acknowledgement.
+func serialAtTheLimit(r *monitor.Run) {
+	b, err := broker.Start(broker.Options{Cfg: func(c *config.Config) { c.MQTT.ReceiveMax = 1 }})
+	if err != nil {
+		r.Inconclusive(err.Error())
+		return
+	}
+	defer b.Stop(step)
+	n := r.Pick(1500, 12000)
+	var wg sync.WaitGroup
+	for w := 0; w < 4; w++ {
+		wg.Add(1)
+		go func(w int) {
+			defer wg.Done()
+			c, err := wire.Dial("serial", b.Addr, mqttx.V5)
+			if err != nil {
+				r.Inconclusive(err.Error())
+				return
+			}
+			defer c.Close()
+			if _, err := c.Connect(&mqttx.Packet{ClientID: fmt.Sprintf("serial-%d", w), CleanStart: true}, step); err != nil {
+				r.Inconclusive(err.Error())
+				return
+			}
+			for i := 0; i < n; i++ {
+				q := byte(1 + (i+w)%2)
+				if _, err := c.Publish(&mqttx.Packet{Topic: "serial/t", QoS: q, Payload: []byte("x")}, step); err != nil {
+					code := "none"
+					for _, p := range c.Ctl() {
+						if p.Type == mqttx.DISCONNECT {
+							code = fmt.Sprintf("0x%02x", p.Code)
+						}
+					}
+					r.Violation("inbound.quota_false_overrun:disconnect="+code, fmt.Sprintf("a publisher with at most one publication outstanding (server receive maximum 1) was cut off at publication %d (qos %d): %v, DISCONNECT %s", i, q, err, code), nil)
+					return
+				}
+			}
+			r.Count("serial_publications_at_receive_maximum_1", int64(n))
+		}(w)
+	}
+	wg.Wait()
+	r.Eval(1)
+	r.Nontrivial("serial-at-the-limit")
+}
+
 func Run(r *monitor.Run) {
+	serialAtTheLimit(r)
 	cs := allCases(r)
 	r.Parallel(len(cs), 16, func(i int) {
 		c := cs[i]
